@@ -317,7 +317,8 @@ def run(ctx: Ctx, rs: RuleSet, tier: str):
   at = None
   for c in ctx.calls(ff):
     if p.resolve(c.func, ff) == MD:
-      at = kwarg(c, 'argument_tags')
+      at = kwarg(c, 'argument_tags') or (ctx.bound_args(c, ff) or {}).get(
+          'argument_tags')
   comp = roles.deref(ff, at) if at is not None else None
   ok = (isinstance(comp, ast.DictComp) and
         '__argument_tags__' in unparse(comp.generators[0].iter) and
